@@ -39,6 +39,11 @@ def run(rep, tier):
     from . import dims
     dims.run(rep, F, "R6.7")
     centroid_tables(rep, F)
+    # degenerate shapes are classified with the scalar's own kernel (C03 R3.5): a collinear triangle taken for an areal one gets a zero weight
+    from . import c03
+    from ..report import Alias as _Alias
+    rep.rule("R6.11", "every Kernel predicate call is dispatched through the scalar's own kernel (C03 R3.5): the dimension of a degenerate Triangle / ring is decided exactly")
+    c03.kernel_dispatch(_Alias(rep, "R6.11"), F)
     # the weights of areal parts are Area::unsigned_area / signed ring areas: the area rules of C05 are clauses of C06 too
     from . import c05
     from ..report import Alias
